@@ -3,7 +3,10 @@
 proof:   coq/theories/Lib/Bytes.v, coq/theories/C09/*.v, Properties_C09.v  (write/read cycle = `expect` for every configuration and every
          well-formed geometry tree; `expect` = what the property text promises on regular trees; re-write fixpoint; byte orders;
          HEX; type word sweep)
-tie:     the model (WKBDefs.v) extracted to OCaml runs beside the real writer/reader (C API objects and the context-level
+tie:     G  the six integer functions of src/io/ByteOrderValues.cpp are translated from the clang AST on every run (Gen/BO_*.v,
+         translator/units/C09.py) and proved equal to the hand model's little/big-endian words, with their round trips and the
+         byte-order reversal (C09/BOProofs.v, BOTheorems.v);
+         M  the model (WKBDefs.v) extracted to OCaml runs beside the real writer/reader (C API objects and the context-level
          legacy functions, binary and HEX) on generated geometry trees x all 24 writer configurations (+ 6 legacy ones):
          implementation bytes == model bytes, implementation re-read (through accessors) == model re-read == `expect`;
          a second stream feeds mutated encodings to both readers.
@@ -449,6 +452,10 @@ def run(ctx):
         'polygon rings carry no SRID in the model; compound-curve sections and curve-polygon rings do',
         'correspondence is sampled (generator quality bounds it)']
     ok_build = ctx.build_repo('rel')
+    # tie G: the byte-order codec (ByteOrderValues::get/putInt, get/putUnsigned, get/putLong) is regenerated from the C++ on every
+    # run; Properties_C09 proves the generated functions equal to the hand model's words (Lib/Bytes) and their round trips
+    from translator.units import BY_PROPERTY
+    ctx.translate(BY_PROPERTY.get('C09', []))
     ok_coq, ax = ctx.coq_build('Properties_C09')
     drv = ctx.ocaml_driver('C09')
     hexe = os.path.join(BUILD, 'bin', 'c09')
